@@ -253,6 +253,12 @@ def run_case(case):
             _queries(fog, model, q, info)
             info.count("queries")
     _check_fog(fog, model, "at the end")
+    # default argument: nearest_unknown() == nearest_unknown(())
+    a = impl("nearest_unknown", fog.nearest_unknown, allowed=(PerfectVisibility,))
+    b = impl("nearest_unknown", fog.nearest_unknown, (), allowed=(PerfectVisibility,))
+    expect("nearest_unknown-default-argument", (isinstance(a, Raised) and isinstance(b, Raised))
+           or (not isinstance(a, Raised) and not isinstance(b, Raised) and tuple(a) == tuple(b)),
+           f"nearest_unknown() gave {a!r}, nearest_unknown(()) gave {b!r}")
     for q in [(), (0,), (15, 15, 15, 15, 15, 15, 15)]:
         _queries(fog, model, q, info)
     info.label("completed", not model)
